@@ -23,6 +23,11 @@ namespace adept {
 
   using namespace internal;
 
+#ifdef RJHOGAN_ADEPT_2_VERIF
+  // Verification hook: number of Jacobian blocks processed by each OpenMP thread
+  int verif_jacobian_blocks_by_thread[64] = {0};
+#endif
+
   template <typename T>
   T _check_long_double() {
     // The user may have requested Real to be of type "long double" by
@@ -145,6 +150,9 @@ namespace adept {
       
 #pragma omp for schedule(static)
       for (int iblock = 0; iblock < n_block; iblock++) {
+#ifdef RJHOGAN_ADEPT_2_VERIF
+	++verif_jacobian_blocks_by_thread[omp_get_thread_num() & 63];
+#endif
 	// Set the index to the dependent variables for this block
 	uIndex i_independent =  MULTIPASS_SIZE * iblock;
 	
@@ -355,6 +363,9 @@ namespace adept {
       
 #pragma omp for schedule(static)
       for (int iblock = 0; iblock < n_block; iblock++) {
+#ifdef RJHOGAN_ADEPT_2_VERIF
+	++verif_jacobian_blocks_by_thread[omp_get_thread_num() & 63];
+#endif
 	// Set the index to the dependent variables for this block
 	uIndex i_dependent =  MULTIPASS_SIZE * iblock;
 	
